@@ -30,14 +30,14 @@ T = "_http._tcp.local."
 
 def floors(tier):
     q = tier == "quick"
-    return {"c13.known_answers": 600 if q else 60000, "c13.suppression": 600 if q else 60000, "c13.progression": 400 if q else 40000}
+    return {"c13.known_answers": 15000 if q else 1500000, "c13.suppression": 3000 if q else 300000, "c13.progression": 8000 if q else 800000}
 
 
 def plan(tier, seed):
     if tier == "quick":
-        n, per = 16, 120
+        n, per = 16, 1000
     else:
-        n, per = 64, 700
+        n, per = 64, 24000
     return [{"seed": seed, "shard": i, "per": per, "tier": tier} for i in range(n)]
 
 
